@@ -186,11 +186,8 @@ def run(ctx):
         def report(what, extra):
             # pending findings, by shape
             x1 = X1.get(i) if isinstance(X1.get(i), bytes) else b""
-            if nested_cdata(x1):
-                known.setdefault("D8-nested-cdata", []).append(pay)
-            elif literal_above_token(nodes, has_ns):
-                known.setdefault("D27-xmlns-below-literal", []).append(pay)
-            elif name == "corpus:ddf/syncml_with_ddf-001.xml" and o[2] == 1:
+            # D8 (nested CDATA) and the xmlns-below-literal defect were repaired in /repo (3c772f6, 32930ca): ordinary violations now
+            if name == "corpus:ddf/syncml_with_ddf-001.xml" and o[2] == 1:
                 known.setdefault("ddf-in-vobject-data-keepws", []).append(pay)
             else:
                 violations.append({"what": what, **pay, **extra})
